@@ -37,7 +37,8 @@ def parseFile (s : String) : Option FileIn :=
 
 def parseLayer (tok : String) : Option LayerIn :=
   match tok.splitOn ":" with
-  | ["L", n, d, fs] =>
+  | [t, n, d, fs] =>
+    if t ≠ "L" && t ≠ "A" then none else
     match unhexStr n, unhexStr d, (splitOnC fs ";").mapM parseFile with
     | some n', some d', some fs' => some ⟨n', d', fs'⟩
     | _, _, _ => none
@@ -292,8 +293,13 @@ def run (inp obs : List String) : Verdict :=
     let keysOf := layers.map (fun l => l.files.flatMap (fun f => f.file.reqs))
     let shapes : List (Bool × Nat × Bool) :=
       [(false, [2, 4, 3][seed % 3]?.getD 2, false), (true, [16, 5, 2][seed % 3]?.getD 16, true)]
+    -- the other font of the process (token `A:`): its names are what a process-wide table would still hold;
+    -- the theorems hold from ANY initial name list, the second replay starts from this one
+    let preNames : NameSet :=
+      (((inp.filter (·.startsWith "A:")).filterMap parseLayer).flatMap
+        (fun l => l.files.flatMap (fun f => f.file.reqs))).eraseDups.zipIdx.map (fun p => ⟨p.1, 1000000 + p.2⟩)
     let selfLoad := shapes.all fun (b, n, rr) =>
-      match parFontRandom b n rr (seed + n) [] 0 filesOf with
+      match parFontRandom b n rr (seed + n) (if b then preNames else []) (if b then 2000000 else 0) filesOf with
       | none => false
       | some ms => ms.length = seqMaps.length &&
           ((ms.zip seqMaps).zip keysOf).all (fun p => mapsAgree p.2 p.1.1 p.1.2)
@@ -354,11 +360,17 @@ def run (inp obs : List String) : Verdict :=
     let loadBad := pools.any (fun p => p.reps < reps || p.reps = 0 || p.dumpsEq ≠ p.reps)
     let saveBad := pools.any (fun p => p.listEq ≠ p.saves || p.hashEq ≠ p.saves)
     let poolsBad := pools.map (·.threads) ≠ [1, 2, 4, 16]
+    let gkFeat :=
+      (if obs.find? (·.startsWith "DG:") ≠ (obs.find? (·.startsWith "XDG:")).map (fun t => (t.drop 1).toString)
+        then ["groups"] else []) ++
+      (if obs.find? (·.startsWith "DK:") ≠ (obs.find? (·.startsWith "XDK:")).map (fun t => (t.drop 1).toString)
+        then ["kerning"] else [])
     let loadFeat :=
       match xq with
       | none => ["unclassified"]
       | some q =>
         if q ≠ status then ["status"] else
+        if !gkFeat.isEmpty then gkFeat else
         match dumps, xd, edumps, xe with
         | some ds, some xs, some es, some xes =>
           let f := loadFeatures ds xs
@@ -381,6 +393,10 @@ def run (inp obs : List String) : Verdict :=
       (if shared then ["shared-bases"] else []) ++
       (if layers.length ≥ 2 then ["multi-layer"] else []) ++
       (if layers.length ≥ 5 then ["layers-ge5"] else []) ++
+      (if layers.length > 32 then ["layers-gt32"] else []) ++
+      (if inp.contains "V2" then ["ufo2"] else []) ++
+      (if inp.any (·.startsWith "G:") && inp.any (·.startsWith "K:") then ["kerning-groups"] else []) ++
+      (if inp.any (·.startsWith "A:") then ["other-font-first"] else []) ++
       (if (layers.head?.map (·.dir)) ≠ some defaultDir then ["default-not-first"] else []) ++
       (if (inp.any (·.startsWith "O:")) then ["history"] else []) ++
       (if (inp.any (fun t => t.startsWith "O:" && ((t.splitOn "eo.").length > 1))) then ["entry-op"] else []) ++
